@@ -527,6 +527,43 @@ def owner_key(impl_name: str) -> str:
     return m[-1] if m else ""
 
 
+def splice_decl(text: str, sp: Splice, item: str) -> str:
+    """W3 for a trait method DECLARATION (`fn f(..) -> T;`): name the result and put the contract before the `;`."""
+    fr = R.Frag(text)
+    ct = fr.ct
+    i = 0
+    while not (ct[i].kind == "ident" and ct[i].text == "fn"):
+        i += 1
+    k = i + 2
+    if ct[k].text == "<":
+        k = R.skip_generics(ct, k)
+    pe = R.match_close(ct, k)
+    k = pe + 1
+    arrow = None
+    where = None
+    while ct[k].text != ";":
+        if ct[k].text == "->" and arrow is None:
+            arrow = k
+        if ct[k].text == "where" and where is None:
+            where = k
+        if ct[k].text == "<":
+            k = R.skip_generics(ct, k)
+            continue
+        if ct[k].text in ("(", "["):
+            k = R.match_close(ct, k) + 1
+            continue
+        k += 1
+    semi = k
+    if sp.ret and arrow is not None:
+        ts = arrow + 1
+        te = (where if where is not None else semi) - 1
+        fr.insert(ct[ts].start, f"({sp.ret}: ")
+        fr.insert(ct[te].end, ")")
+    if sp.contract:
+        fr.insert(ct[semi].start, "\n" + sp.contract)
+    return fr.apply()
+
+
 def splice_fn(text: str, sp: Splice, item: str, vacuity: bool = False) -> str:
     """Apply W3/W4/W5 splices to the text of one `fn` item."""
     fr = R.Frag(text)
@@ -732,6 +769,9 @@ class Unit:
                     fns.append(c.name)
                 else:
                     parts.append(publicise(apply_token_substs(strip_attributes(raw, self.report, sel), substs, self.report, sel), c.kind, self.report, sel, trait_impl))
+            if icfg.get("extra_items"):
+                parts.append(icfg["extra_items"])
+                self.report.add("W3", label, "ghost spec item(s) added to the impl")
             parts.append("}")
             return Chunk("repo", label, "\n\n".join(parts), relfile, (src.line_of(it.start), src.line_of(it.end - 1)), None, fns)
 
@@ -771,7 +811,16 @@ class Unit:
                 for sel in icfg["only"]:
                     if sel not in kids:
                         raise ExtractError(f"{relfile}: `{sel}` not found in trait `{it.name}`")
-                    parts.append(src.text_of(kids[sel]))
+                    ktext = src.text_of(kids[sel])
+                    if kids[sel].kind == "fn" and kids[sel].body_open is None:
+                        spd = self._splice_for(kids[sel].name, variant, it.name)
+                        if spd.ret or spd.contract:
+                            ktext = splice_decl(ktext, spd, f"{it.name}::{kids[sel].name}")
+                    parts.append(ktext)
+                if icfg.get("extra_items"):
+                    # ghost items (spec fn declarations) added to the trait: annotation only
+                    parts.append(icfg["extra_items"])
+                    self.report.add("W3", label, "ghost spec item(s) added to the trait")
                 parts.append("}")
                 dropped = sorted(set(kids) - set(icfg["only"]))
                 if dropped:
@@ -1033,6 +1082,9 @@ def fn_ranges(text: str) -> List[Tuple[str, int, int, str]]:
     def walk(items, prefix):
         for it in items:
             if it.kind == "fn":
+                if it.body_open is None:
+                    # a trait method declaration: its clauses are obligations of each impl, where Verus reports them
+                    continue
                 # mode: look back a few tokens for spec/proof
                 mode = "exec"
                 j = it.first_tok
